@@ -586,3 +586,24 @@ func verifMaybeUnencodable() any {
 	}
 	return nil
 }
+
+// environment faults chosen by the solver that a native stand-in can act out. "ext-fail-on" records carry the input on
+// which the modelled operation failed (the model makes failure a deterministic function of the input), so natively the
+// stand-in fails on exactly those inputs.
+func verifHasExtFail(tag string) bool {
+	for _, it := range verifDoc.Vector {
+		if (it.Kind == "ext-fail" || it.Kind == "ext-fail-on") && it.Tag == tag {
+			return true
+		}
+	}
+	return false
+}
+
+func verifFailsOn(tag string, input string) bool {
+	for _, it := range verifDoc.Vector {
+		if it.Kind == "ext-fail-on" && it.Tag == tag && it.Val == input {
+			return true
+		}
+	}
+	return false
+}
